@@ -292,6 +292,8 @@ def prop(spec, rec):
             labels.add("recompute_gap")
     if any(o["active_arg"] for o in pure_log):
         labels.add("has_active_sessions")
+    if spec.get("start_tz"):
+        labels.add("aware_start")
     if spec.get("early_unplugs"):
         labels.add("explicit_early_unplug")
         if any(m.occupant(m.sessions[sid]["station"], m.sessions[sid]["departure"] - 1) not in (None, sid) for sid in m.early):
@@ -309,6 +311,11 @@ def cases(draw):
     ev.departure then finds the station empty - or re-occupied by a session generated into the
     gap - and is an event of its period all the same."""
     spec = draw(sc.scenarios(energies=(0.02, 0.2, 1.0, 3.0, 12.0, 60.0)))
+    if draw(st.integers(0, 3)) == 0:
+        # an aware simulation start shortly before a DST change of its zone: current_datetime is
+        # start + t x period in datetime arithmetic all the same
+        spec["start"] = draw(st.sampled_from(["2020-03-08T00:30:00", "2020-03-08T01:55:00", "2020-11-01T00:45:00", "2020-06-01T12:00:00"]))
+        spec["start_tz"] = draw(st.sampled_from(["pytz:America/Los_Angeles", "zoneinfo:America/Los_Angeles", "utc:"]))
     if draw(st.integers(0, 2)) == 0:
         early = []
         extra = []
@@ -338,7 +345,7 @@ def subchecks(tier):
             prop,
             quick=300,
             thorough=20000,
-            floors={"recompute_gap": 0.033, "session_satisfied_mid_stay": 0.089, "last_applied_nonempty": 0.3, "has_active_sessions": 0.454, "mr_None": 0.1, "explicit_early_unplug": 0.06},
+            floors={"recompute_gap": 0.033, "session_satisfied_mid_stay": 0.089, "last_applied_nonempty": 0.3, "has_active_sessions": 0.454, "mr_None": 0.1, "explicit_early_unplug": 0.06, "aware_start": 0.1},
         )
     ]
 
